@@ -72,6 +72,34 @@ theorem readN_writeAll (env : Env) (rd : Bytes → Res (Val × Bytes)) (el : Ty)
         ih w r (fun x hx => hall x (by simp [hx])) hw']
     · cases hw
 
+/-- the slot-counting loop reads back what `writeAll` wrote, when started with the slots of the items -/
+theorem readSlots_writeAll (env : Env) (wide : List Nat) (rd : Bytes → Res (Val × Bytes)) (el : Ty) :
+    ∀ (vs : List Val) (b r : Bytes),
+      (∀ v ∈ vs, ∀ a r', writeV env el v = some a → rd (a ++ r') = .ok (v, r')) →
+      writeAll env el vs = some b → readSlots wide rd (slotsAll wide vs) (b ++ r) = .ok (vs, r) := by
+  intro vs
+  induction vs with
+  | nil => intro b r _ hw; simp [writeAll] at hw; subst hw; rfl
+  | cons v vs ih =>
+    intro b r hall hw
+    simp only [writeAll] at hw
+    split at hw
+    · rename_i a w ha hw'
+      simp at hw; subst hw
+      have hrec := ih w r (fun x hx => hall x (by simp [hx])) hw'
+      have hv := hall v (by simp) a (w ++ r) ha
+      cases hwd : isWide wide v with
+      | true =>
+        have : slotsAll wide (v :: vs) = (slotsAll wide vs + 1) + 1 := by simp [slotsAll, slotsV, hwd]; omega
+        rw [this]
+        simp only [readSlots, List.append_assoc, hv, Res.bind_ok, hwd, if_true, hrec]
+      | false =>
+        have : slotsAll wide (v :: vs) = slotsAll wide vs + 1 := by simp [slotsAll, slotsV, hwd]; omega
+        rw [this]
+        simp only [readSlots, List.append_assoc, hv, Res.bind_ok, hwd, hrec]
+        simp
+    · cases hw
+
 theorem depthAll_le {vs : List Val} {n : Nat} (h : depthAll vs ≤ n) : ∀ v ∈ vs, depthV v ≤ n := by
   induction vs with
   | nil => intro v hv; cases hv
@@ -94,8 +122,8 @@ theorem fitsAll_mem {env : Env} {pool : Pool} {binds : Binds} {el : Ty} {vs : Li
     | tail _ hm => exact ih h.2 v hm
 
 /-- the `match tag { … }` picks the variant `selectIdx` names -/
-theorem selectVariant_idx (utf8 : Nat) (pool : Pool) (tag : Nat) :
-    ∀ (vs : List Variant) (i j : Nat) (v : Variant), selectVariant utf8 pool tag vs i = .ok (j, v) →
+theorem selectVariant_idx (utf8 : Nat) (wide : List Nat) (pool : Pool) (tag : Nat) :
+    ∀ (vs : List Variant) (i j : Nat) (v : Variant), selectVariant utf8 wide pool tag vs i = .ok (j, v) →
       i ≤ j ∧ vs[j - i]? = some v := by
   intro vs
   induction vs with
@@ -103,7 +131,7 @@ theorem selectVariant_idx (utf8 : Nat) (pool : Pool) (tag : Nat) :
   | cons w ws ih =>
     intro i j v h
     simp only [selectVariant] at h
-    have hrec : selectVariant utf8 pool tag ws (i + 1) = .ok (j, v) → i ≤ j ∧ (w :: ws)[j - i]? = some v := by
+    have hrec : selectVariant utf8 wide pool tag ws (i + 1) = .ok (j, v) → i ≤ j ∧ (w :: ws)[j - i]? = some v := by
       intro h'
       obtain ⟨h1, h2⟩ := ih (i + 1) j v h'
       refine ⟨by omega, ?_⟩
@@ -120,13 +148,14 @@ theorem selectVariant_idx (utf8 : Nat) (pool : Pool) (tag : Nat) :
         · cases h
     · exact hrec h
 
-theorem selectVariant_of_idx (utf8 : Nat) (pool : Pool) (tag : Nat) (vs : List Variant) (k : Nat) (v : Variant)
-    (h1 : selectIdx utf8 pool tag vs = some k) (h2 : vs[k]? = some v) : selectVariant utf8 pool tag vs 0 = .ok (k, v) := by
+theorem selectVariant_of_idx (utf8 : Nat) (wide : List Nat) (pool : Pool) (tag : Nat) (vs : List Variant) (k : Nat)
+    (v : Variant) (h1 : selectIdx utf8 wide pool tag vs = some k) (h2 : vs[k]? = some v) :
+    selectVariant utf8 wide pool tag vs 0 = .ok (k, v) := by
   unfold selectIdx at h1
   split at h1
   · rename_i i w hs
     simp at h1; subst h1
-    obtain ⟨_, h3⟩ := selectVariant_idx utf8 pool tag vs 0 i w hs
+    obtain ⟨_, h3⟩ := selectVariant_idx utf8 wide pool tag vs 0 i w hs
     simp at h3
     rw [h2] at h3; simp at h3; subst h3
     exact hs
